@@ -48,6 +48,7 @@ def run(ctx):
         ctx.ob('1a defer-flag-anchor', 'anchor', pc.path, 'process_commits takes the deferral decision from one boolean whose true edge leads to defer_commit', len(dl) == 1, str(dl))
         lock_sets = []
         decision_fields = set()
+        dec_body, dec_sites = pc, []
         DB = pc
         if len(dl) == 1:
             D = dl[0]
@@ -63,6 +64,7 @@ def run(ctx):
                 if hb is not None:
                     DB = hb
                     sets = [(bi, st) for bi in hb.normal_blocks() for st in hb.blocks[bi]['s'] if st['k'] == 'assign' and st['p'] == [0] and st['r']['k'] == 'use' and st['r']['a'][0].get('i') == 1]
+            dec_body, dec_sites = DB, [bi for bi, _st in sets]
             by_lock = by_queue = 0
             for bi, st in sets:
                 calls, fields, binops = lib.guard_influences(DB, bi)
@@ -221,6 +223,27 @@ def run(ctx):
     for b, x in msites:
         lib.held_at(ctx, '1m used-trees-marked-under-the-queue-lock %s' % lib.strip_closures(b.path), b, x, '.DbInner.commit_queue',
                     'the used_trees marks of a commit are computed with the commit queue locked (between the look at to_dereference and the push onto the queue no removal can be committed)')
+    # whatever the state of the tree's reader (locked, unlocked, no live handle any more), a removal also waits for queued commits that
+    # marked the tree: the queue scan is reached for every DereferenceChildren change unless the decision to defer was already taken.
+    # The marks were set while a reader was locked; the reader may be long gone when the log worker gets to the removal.
+    if pc:
+        DBq = dec_body          # process_commits, or the predicate function the decision was moved into
+        adt = F.adts.get('db::NodeChange', {})
+        dv = next((v['discr'] for v in adt.get('variants', []) if v['name'] == 'DereferenceChildren'), None)
+        scans = [bi for bi, t in DBq.calls() if bi in DBq.normal_blocks() and t['a'] and '.CommitQueue.commits' in lib.receiver_fields(DBq, t, 0)
+                 and call_matches(t, ['re:IntoIterator>::into_iter$', 're:VecDeque.*::iter$', 're:Iterator::(any|all|find|position)$'])]
+        decided = list(dec_sites)
+        okq = False
+        wq = None
+        for lp in lib.for_loops_over(DBq, '.IndexedChangeSet.node_changes'):
+            if not any(x in DBq.reachable_from([lp['some']], removed={lp['head']}) for x in scans):
+                continue
+            found, wq = lib.loop_arm_must_call(DBq, lp, 'NodeChange', dv, list(scans) + decided)
+            okq = found and wq is None
+            break
+        ctx.ob('1c2 queue-scan-reached-whatever-the-reader-state', 'K2-loop-order', DBq.path,
+               'for every tree removal of the commit the scan of the queued commits is reached unless the decision to wait was already taken - also when the tree has no live reader handle any more',
+               okq, 'no scan of the commit queue inside the loop over the node changes' if wq is None and not okq else ('path that skips the scan: ' + lib.short_path(DBq, wq) if wq else ''))
     shared.no_mutual_deferral(ctx, '3z')
     # a removal that waits can be overtaken by a LATER commit that writes the same root (InsertTree / ReferenceTree / DereferenceTree of
     # the key): the later one is planned first, then the postponed removal is applied to whatever root it finds - the final state is not
